@@ -161,7 +161,9 @@ class Gen:
                 out.append(("if", c, ("block", th), ("block", el) if el is not None else None))
             elif k < 0.80:
                 # forward goto to a label at the end of this block
-                if end_label is None: end_label = self.fresh("end")
+                # (half of the blocks share the name with every other block of their depth: labels are scoped to their
+                # block, so sibling blocks may use one name)
+                if end_label is None: end_label = self.fresh("end") if r.random() < 0.5 else "end_d%d" % depth
                 c = self.cmp(env, 1)
                 if r.random() < 0.8: out.append(("if", c, ("goto", end_label), None))
                 else: out.append(("goto", end_label))
